@@ -858,7 +858,12 @@ struct Shard {
     srv: Option<Running>,
     expect: HashMap<u64, Expect>,
     served: u64,
+    /// watchdog for handshake answers and event-log waits
     wd: Duration,
+    /// watchdog for post-upgrade reads (expiry is never a verdict by itself)
+    wd_data: Duration,
+    /// watchdog expiries so far: the shard stops early when they pile up
+    stalls: u32,
 }
 
 enum Outcome {
@@ -1053,7 +1058,7 @@ impl Shard {
         w: &Value,
     ) -> Outcome {
         let flow = case.flow.tag();
-        let wd = self.wd;
+        let wd = self.wd_data;
         let xor = built.xor;
         let uid = built.uid;
         let tr = |d: &[u8]| -> Vec<u8> { d.iter().map(|b| b ^ xor).collect() };
@@ -1074,7 +1079,10 @@ impl Shard {
                         return Outcome::Violated;
                     }
                 }
-                Err(e) => return self.data_err(&e, "greeting", &flow, w),
+                Err(e) => {
+                    let n = g.len();
+                    return self.data_err(conn, &e, "greeting", &flow, w, n, false, uid);
+                }
             }
         }
 
@@ -1103,7 +1111,9 @@ impl Shard {
                                 return Outcome::Violated;
                             }
                         }
-                        Err(e) => return self.data_err(&e, "echo", &flow, w),
+                        Err(e) => {
+                            return self.data_err(conn, &e, "echo", &flow, w, n, true, uid)
+                        }
                     }
                     off += n;
                 }
@@ -1161,11 +1171,20 @@ impl Shard {
                         }
                     }
                     Err(e) => {
+                        // the end-of-stream probe is sound only when every
+                        // client byte is already written
+                        let mut written = true;
                         if let Some(h) = writer.take() {
-                            conn.shutdown_write();
-                            let _ = h.join();
+                            if h.is_finished() {
+                                written = matches!(h.join(), Ok(Ok(())));
+                            } else {
+                                written = false;
+                                conn.shutdown_write();
+                                let _ = h.join();
+                            }
                         }
-                        return self.data_err(&e, "echo", &flow, w);
+                        let n = expect_echo.len();
+                        return self.data_err(conn, &e, "echo", &flow, w, n, written, uid);
                     }
                 }
             }
@@ -1197,7 +1216,10 @@ impl Shard {
                         return Outcome::Violated;
                     }
                 }
-                Err(e) => return self.data_err(&e, "bye", &flow, w),
+                Err(e) => {
+                    let n = b.len();
+                    return self.data_err(conn, &e, "bye", &flow, w, n, true, uid);
+                }
             }
             // server closes first: EOF must follow without the client closing
             let (rest, how) = conn.read_to_eof(wd);
@@ -1209,6 +1231,7 @@ impl Shard {
                 return Outcome::Violated;
             }
             if how == "timeout" {
+                self.stalls += 1;
                 self.rep.inconclusive("watchdog:server-close-not-seen");
                 return Outcome::Inconclusive;
             }
@@ -1226,6 +1249,7 @@ impl Shard {
                 return Outcome::Violated;
             }
             if how == "timeout" {
+                self.stalls += 1;
                 self.rep.inconclusive("watchdog:eof-after-half-close-not-seen");
                 return Outcome::Inconclusive;
             }
@@ -1256,11 +1280,75 @@ impl Shard {
         }
     }
 
-    fn data_err(&mut self, e: &ReadErr, wher: &str, flow: &str, w: &Value) -> Outcome {
+    /// A post-upgrade read did not deliver.  EOF / reset before all bytes is
+    /// a loss.  A watchdog expiry is not a verdict: when `may_probe` (all of
+    /// the client's bytes are written), the client half-closes so that the
+    /// handler finishes, and the *end of stream* decides — fewer bytes than
+    /// expected before EOF are lost bytes; anything else is inconclusive.
+    #[allow(clippy::too_many_arguments)]
+    fn data_err(
+        &mut self,
+        conn: &mut Conn,
+        e: &ReadErr,
+        wher: &str,
+        flow: &str,
+        w: &Value,
+        expected_len: usize,
+        may_probe: bool,
+        uid: u64,
+    ) -> Outcome {
         match e {
-            ReadErr::Timeout(_) => {
-                self.rep.inconclusive(&format!("watchdog:{wher}"));
-                Outcome::Inconclusive
+            ReadErr::Timeout(partial) => {
+                self.stalls += 1;
+                // diagnostics for the inconclusive record: did the handler start?
+                let entered = self
+                    .srv
+                    .as_ref()
+                    .map(|r| r.ctx.log.snapshot().iter().any(|e| e.uid == uid && e.kind == "CH_ENTER"))
+                    .unwrap_or(false);
+                let hs = if entered { "handler-entered" } else { "handler-not-entered" };
+                let mut st = self
+                    .rep
+                    .extra
+                    .remove("stall_witnesses")
+                    .and_then(|v| v.as_array().cloned())
+                    .unwrap_or_default();
+                if st.len() < 6 {
+                    st.push(json!({"case": w, "where": wher, "handler": hs,
+                                   "received_before_expiry": partial.len(),
+                                   "expected_len": expected_len}));
+                }
+                self.rep.extra.insert("stall_witnesses".into(), Value::Array(st));
+                if !may_probe {
+                    self.rep.inconclusive(&format!("watchdog:{wher}:{hs}"));
+                    return Outcome::Inconclusive;
+                }
+                conn.shutdown_write();
+                let (got, how) = conn.read_to_eof(self.wd_data);
+                if how == "eof" && got.len() < expected_len {
+                    let ev: Vec<Value> = self
+                        .srv
+                        .as_ref()
+                        .map(|r| r.ctx.log.snapshot())
+                        .unwrap_or_default()
+                        .iter()
+                        .filter(|e| e.uid == uid)
+                        .map(|e| e.json())
+                        .collect();
+                    self.rep.violate(
+                        format!("C20:post-upgrade-bytes-lost:{flow}:{wher}-stream-ended-short"),
+                        json!({"case": w, "expected_len": expected_len, "received_len": got.len(),
+                               "handler_events": ev}),
+                    );
+                    Outcome::Violated
+                } else {
+                    self.rep.inconclusive(&format!(
+                        "watchdog:{wher}:{hs}:then-{how}-after-{}-of-{}-bytes",
+                        if got.len() >= expected_len { "all" } else { "part" },
+                        "expected"
+                    ));
+                    Outcome::Inconclusive
+                }
             }
             ReadErr::Io(_) => {
                 self.rep.inconclusive(&format!("io:{wher}"));
@@ -1291,6 +1379,53 @@ impl Shard {
                 None
             }
         }
+    }
+
+    /// Signature for a refused complete handshake.  The refusal is attributed
+    /// by re-sending the same Connection lines with the plain Upgrade header
+    /// and vice versa, so that the signature names the spelling that matters.
+    fn refusal_sig(
+        &mut self,
+        conn_sp: Sp,
+        upg_sp: Sp,
+        conn_lines: &[Vec<u8>],
+        upg_lines: &[Vec<u8>],
+    ) -> (String, Value) {
+        if conn_sp == Sp::Plain && upg_sp == Sp::Plain {
+            return ("C20:complete-handshake-refused".to_string(), json!(null));
+        }
+        let plain_u = vec![b"websocket".to_vec()];
+        let plain_c = vec![b"Upgrade".to_vec()];
+        let pc = self.probe(conn_lines, &plain_u);
+        let pu = self.probe(&plain_c, upg_lines);
+        let pp = self.probe(&plain_c, &plain_u);
+        let attribution = json!({"status_with_plain_upgrade_header": pc,
+                                 "status_with_plain_connection_header": pu,
+                                 "status_with_both_plain": pp});
+        let class = match (pp, pc, pu) {
+            (Some(101), Some(c), _) if c != 101 => format!("connection-{}", conn_sp.tag()),
+            (Some(101), _, Some(u)) if u != 101 => format!("upgrade-{}", upg_sp.tag()),
+            (Some(101), Some(101), Some(101)) => {
+                format!("connection-{}+upgrade-{}", conn_sp.tag(), upg_sp.tag())
+            }
+            // probes themselves failed: fall back to the generated class
+            (None, _, _) | (_, None, _) | (_, _, None) => {
+                if conn_sp.exotic() || upg_sp == Sp::Plain {
+                    format!("connection-{}", conn_sp.tag())
+                } else if upg_sp.exotic() || conn_sp == Sp::Plain {
+                    format!("upgrade-{}", upg_sp.tag())
+                } else {
+                    format!("connection-{}+upgrade-{}", conn_sp.tag(), upg_sp.tag())
+                }
+            }
+            _ => String::new(),
+        };
+        let sig = if class.is_empty() {
+            "C20:complete-handshake-refused".to_string()
+        } else {
+            format!("C20:valid-connection-header-spelling-refused:{class}")
+        };
+        (sig, attribution)
     }
 
     /// minimal handshake with the given Connection / Upgrade lines on a fresh
@@ -1347,13 +1482,6 @@ impl Shard {
             Some("13"), Some(&case.key), first, take, bye,
         );
         let w = self.wit(case, &built);
-        let exotic = if conn_sp.exotic() {
-            Some(format!("connection-{}", conn_sp.tag()))
-        } else if upg_sp.exotic() {
-            Some(format!("upgrade-{}", upg_sp.tag()))
-        } else {
-            None
-        };
         let class = format!(
             "{}|conn:{}|upg:{}|{}|pay:{}{}",
             if may_refuse { "unconstrained" } else { "accept" },
@@ -1448,35 +1576,8 @@ impl Shard {
                 self.rep.count("unconstrained_refused", 1);
                 return;
             }
-            // attribute the refusal: the same Connection lines with a plain
-            // Upgrade header, and the other way round
-            let mut attribution = json!(null);
-            let sig = match exotic {
-                Some(c) => format!("C20:valid-connection-header-spelling-refused:{c}"),
-                None if conn_sp != Sp::Plain || upg_sp != Sp::Plain => {
-                    let plain_u = vec![b"websocket".to_vec()];
-                    let plain_c = vec![b"Upgrade".to_vec()];
-                    let pc = self.probe(&conn_lines_w, &plain_u);
-                    let pu = self.probe(&plain_c, &upg_lines_w);
-                    let pp = self.probe(&plain_c, &plain_u);
-                    attribution = json!({"status_with_plain_upgrade_header": pc,
-                                         "status_with_plain_connection_header": pu,
-                                         "status_with_both_plain": pp});
-                    let class = match (pp, pc, pu) {
-                        (Some(101), Some(c), _) if c != 101 => format!("connection-{}", conn_sp.tag()),
-                        (Some(101), _, Some(u)) if u != 101 => format!("upgrade-{}", upg_sp.tag()),
-                        (Some(101), Some(101), Some(101)) => format!(
-                            "connection-{}+upgrade-{}", conn_sp.tag(), upg_sp.tag()),
-                        _ => String::new(),
-                    };
-                    if class.is_empty() {
-                        "C20:complete-handshake-refused".to_string()
-                    } else {
-                        format!("C20:valid-connection-header-spelling-refused:{class}")
-                    }
-                }
-                None => "C20:complete-handshake-refused".to_string(),
-            };
+            let (sig, attribution) =
+                self.refusal_sig(conn_sp, upg_sp, &conn_lines_w, &upg_lines_w);
             self.rep.violate(
                 sig,
                 json!({"case": w, "status": resp.status, "headers": hdrs(&resp),
@@ -1630,7 +1731,8 @@ impl Shard {
             w: Value,
             sent: Vec<u8>,
             alive: bool,
-            spelling: String,
+            sp: (Sp, Sp),
+            lines: (Vec<Vec<u8>>, Vec<Vec<u8>>),
         }
         let mut ms: Vec<Member> = vec![];
         for j in 0..k {
@@ -1642,6 +1744,7 @@ impl Shard {
             let upg_sp = REGULAR[rng.usize(REGULAR.len())];
             let cl = render_list(conn_sp, "Upgrade", &CONN_OTHERS, &mut rng);
             let ul = render_list(upg_sp, "websocket", &UPG_OTHERS, &mut rng);
+            let lines = (cl.clone(), ul.clone());
             let built = build(&case, &mut rng, "GET", Some(cl), Some(ul), Some("13"), Some(&case.key), 0, None, 0);
             let Some(mut conn) = self.connect() else { continue };
             if let Err(e) = conn.send(&built.bytes) {
@@ -1650,8 +1753,10 @@ impl Shard {
             }
             let mut w = self.wit(&case, &built);
             w["herd"] = json!({"round": round, "member": j, "size": k});
-            let spelling = format!("connection-{}+upgrade-{}", conn_sp.tag(), upg_sp.tag());
-            ms.push(Member { conn, case, built, w, sent: vec![], alive: true, spelling });
+            ms.push(Member {
+                conn, case, built, w, sent: vec![], alive: true,
+                sp: (conn_sp, upg_sp), lines,
+            });
         }
         // all handshakes are in flight; now collect the answers
         for m in ms.iter_mut() {
@@ -1667,9 +1772,12 @@ impl Shard {
                 }
                 Ok(resp) => {
                     self.rep.count("handshakes_refused", 1);
+                    let (sig, attribution) =
+                        self.refusal_sig(m.sp.0, m.sp.1, &m.lines.0, &m.lines.1);
                     self.rep.violate(
-                        format!("C20:complete-handshake-refused:concurrent:{}", m.spelling),
-                        json!({"case": m.w, "status": resp.status, "body": esc(&resp.body)}),
+                        sig,
+                        json!({"case": m.w, "status": resp.status, "body": esc(&resp.body),
+                               "attribution": attribution}),
                     );
                     m.alive = false;
                 }
@@ -1716,7 +1824,7 @@ impl Shard {
                 }
                 let n = lens[i];
                 let xor = m.built.xor;
-                match m.conn.read_exact_raw(n, self.wd) {
+                match m.conn.read_exact_raw(n, self.wd_data) {
                     Ok(got) => {
                         self.rep.count("bytes_echoed", n as u64);
                         let want: Vec<u8> =
@@ -1732,9 +1840,17 @@ impl Shard {
                         }
                     }
                     Err(e) => {
-                        let w = m.w.clone();
                         m.alive = false;
-                        let _ = self.data_err(&e, "echo", "concurrent", &w);
+                        match e {
+                            ReadErr::Timeout(_) | ReadErr::Io(_) => {
+                                self.stalls += 1;
+                                self.rep.inconclusive("watchdog:echo:concurrent");
+                            }
+                            _ => self.rep.violate(
+                                format!("C20:post-upgrade-bytes-lost:concurrent:echo-{}", readerr_kind(&e)),
+                                json!({"case": m.w, "read": readerr_json(&e)}),
+                            ),
+                        }
                     }
                 }
             }
@@ -1809,9 +1925,18 @@ pub fn run_shard(seed: u64, shard: u64, quick: bool, cases: u64, herd_k: usize) 
         expect: HashMap::new(),
         served: 0,
         wd: Duration::from_secs(60),
+        wd_data: Duration::from_secs(60),
+        stalls: 0,
     };
     let rotate_every = 1500;
     for idx in 0..cases {
+        if sh.stalls > 3 {
+            // a tree on which streams stall would otherwise cost one
+            // watchdog period per case
+            sh.rep.inconclusive("aborted:repeated-watchdog-expiries");
+            sh.rep.count("cases_not_run_after_abort", cases - idx);
+            break;
+        }
         if idx % rotate_every == 0 {
             if idx > 0 {
                 sh.rotate();
